@@ -219,6 +219,8 @@ class World:
         g = self.groups.get(name)
         if g is None:
             return  # the step that created the group was removed by the shrinker
+        if st.get('sim_plan') is not None:
+            g['sim_plan'] = st['sim_plan']  # the chain moved on: this simulation answers differently from the previous one
         if g.get('sim_plan') is not None:
             node.sim_plan = g['sim_plan']
         if op in ('fill', 'autofill', 'send'):
@@ -295,7 +297,7 @@ class World:
             },
         }
         for k in ('sig_invalid', 'injection_undecodable', 'injection_unknown_branch', 'injection_duplicate', 'run_operation_counter_failed',
-                  'injection_bad_counter', 'injection_fees_too_low'):
+                  'injection_bad_counter', 'injection_fees_too_low', 'injections_unprocessed'):
             if sim.stats.get(k):
                 out['info'][k] = sim.stats[k]
         if want_log:
